@@ -24,6 +24,11 @@ from .core import InfraError
 
 # property -> suites that exercise it (module names under harness/suites)
 PROPS = {
+    'C01': ['dispatch'],
+    'C02': ['dispatch'],
+    'C03': ['dispatch'],
+    'C11': ['dispatch'],
+    'C12': ['dispatch'],
     'C05': ['msg'],
     'C06': ['msg'],
 }
@@ -140,8 +145,6 @@ def run_check(prop, tier, seed, jobs, t0, build=True):
         cases += list(s.generate(tier, rng))
         if hasattr(s, 'relevant'):
             cases = [c for c in cases if s.relevant(prop, c)]
-        else:
-            cases = [c for c in cases if s.project(prop, c, {'raised': 'x', 'built': 'x', 'outs': []}) is not None or True]
         impl_outs = run_impl_all(suite_name, cases, jobs)
         model_outs = core.run_driver_sharded(cases, jobs)
         n_rel = 0
@@ -180,8 +183,11 @@ def run_check(prop, tier, seed, jobs, t0, build=True):
                     extra += list(s.neighbourhood(d['case'], rng))
             if tier == 'quick':
                 extra += [c for c in s.generate('thorough', rng)][:200000]
+            t_search = time.time()
             for c in extra:
-                if s.project(prop, c, {'raised': 'x'}) is None and not hasattr(s, 'relevant'):
+                if time.time() - t_search > (60 if tier == 'quick' else 600):
+                    break
+                if hasattr(s, 'relevant') and not s.relevant(prop, c):
                     continue
                 try:
                     io = s.run_impl(c)
